@@ -227,9 +227,19 @@ def runDeflEnc (args : List String) : String :=
     | [hd, toks] =>
       let hs := hd.splitOn ";"
       let h0 := hs.headD ""
+      -- `r<fin>;<cll: 19 hex digits>;<nc>;<nl>;<items l<n> | a<k> | b<k> | c<k> separated by '.'>` = a header with
+      -- the repeat codes 16 (a) / 17 (b) / 18 (c); `R<fin>;<ll>;<dl>` = `Kind.rleOf ll dl`
+      let itemOf (x : String) : DeflEnc.Item :=
+        let k := natOf (x.drop 1).toString
+        if x.startsWith "a" then .rep16 k else if x.startsWith "b" then .rep17 k
+        else if x.startsWith "c" then .rep18 k else .lit k
       let kind : DeflEnc.Kind :=
         if h0.startsWith "s" then .stored
         else if h0.startsWith "d" then .dyn (lensOf (hs.getD 1 "")) (lensOf (hs.getD 2 ""))
+        else if h0.startsWith "r" then
+          .dynRle (lensOf (hs.getD 1 "")) (natOf (hs.getD 2 "")) (natOf (hs.getD 3 ""))
+            (if hs.getD 4 "" = "" then [] else ((hs.getD 4 "").splitOn ".").map itemOf)
+        else if h0.startsWith "R" then DeflEnc.Kind.rleOf (lensOf (hs.getD 1 "")) (lensOf (hs.getD 2 ""))
         else .fixed
       (kind, { final := h0.endsWith "1",
                toks := if toks = "" then [] else (toks.splitOn ",").map parseTok })
@@ -240,6 +250,7 @@ def runDeflEnc (args : List String) : String :=
     if kbs.all (fun sb => DeflEnc.Blk.ok sb.2) then
       let dyn := kbs.filterMap fun sb => match sb.1 with
         | .dyn ll dl => some (if DeflEnc.dynOk ll dl sb.2.toks then "1" else "0")
+        | .dynRle cll nc nl items => some (if DeflEnc.rleOk cll nc nl items sb.2.toks then "1" else "0")
         | _ => none
       "ok " ++ hexOfBytes (DeflEnc.encMsgK kbs) ++ " dyn=" ++ String.join dyn
     else "unencodable"
